@@ -1,6 +1,7 @@
 package eventloop
 
 import (
+	"math"
 	"sync"
 	"sync/atomic"
 	"time"
@@ -116,12 +117,12 @@ func (loop *EventLoop) schedule(call goja.FunctionCall, repeating bool) goja.Val
 		var ret goja.Value
 		if repeating {
 			interval := loop.newInterval(f)
-			interval.start(loop, time.Duration(delay)*time.Millisecond)
+			interval.start(loop, msToDuration(delay))
 			job = &interval.job
 			ret = loop.vm.ToValue(interval)
 		} else {
 			timeout := loop.newTimeout(f)
-			timeout.start(loop, time.Duration(delay)*time.Millisecond)
+			timeout.start(loop, msToDuration(delay))
 			job = &timeout.job
 			ret = loop.vm.ToValue(timeout)
 		}
@@ -130,6 +131,18 @@ func (loop *EventLoop) schedule(call goja.FunctionCall, repeating bool) goja.Val
 		return ret
 	}
 	return nil
+}
+
+// msToDuration converts a delay in milliseconds, saturating instead of overflowing.
+func msToDuration(ms int64) time.Duration {
+	const max = int64(math.MaxInt64 / time.Millisecond)
+	if ms > max {
+		return time.Duration(math.MaxInt64)
+	}
+	if ms < -max {
+		return time.Duration(math.MinInt64)
+	}
+	return time.Duration(ms) * time.Millisecond
 }
 
 func (loop *EventLoop) setTimeout(call goja.FunctionCall) goja.Value {
